@@ -57,6 +57,8 @@ def _lock():
 
 
 def ensure_makefile():
+    from harness import gen_coqproject
+    gen_coqproject.main()
     mk = os.path.join(COQ, 'Makefile')
     cp = os.path.join(COQ, '_CoqProject')
     if not os.path.exists(mk) or os.path.getmtime(mk) < os.path.getmtime(cp):
